@@ -11,11 +11,11 @@ PID = "C20"
 LEVEL = "model_checking"
 RULE = ("construction: model.rating / create_rating for every (mu, sigma) of the 26-value alphabet (zeros, signed zeros, negatives, "
         "ints, huge/tiny) + bools x names {omitted, None, 'a', 'ü'} x every omission pattern, on default and non-default models, 5 "
-        "classes; 10^4 ids distinct; deepcopy of ratings, teams and leagues; differential: every game of T3|V6, P3 and G4|V6 rated / "
+        "classes; 10^4 ids distinct, also when the global random generator is re-seeded / restored between constructions; deepcopy of ratings, teams and leagues; differential: every game of T3|V6, P3 and G4|V6 rated / "
         "predicted with the original objects, with objects rebuilt by create_rating([mu,sigma]), by model.rating(mu,sigma) and by "
         "deepcopy must give bit-identical numbers; E2: restore / deepcopy transitions interleaved with every operation of the "
-        "reduced alphabet to depth 2 (thorough adds depth 4 over the small alphabet), I5 on every restore/copy transition and I2 on every transition whose "
-        "history contains one; non-trivial = construction with at least one explicit non-default argument, or a differential "
+        "reduced alphabet to depth 2 (thorough adds depth 4 over the small alphabet), I5 on every restore/copy transition and I2 (the call on players rebuilt from their (mu, sigma) on a "
+        "fresh model == the call on the original objects) on EVERY transition; non-trivial = construction with at least one explicit non-default argument, or a differential "
         "case whose posterior differs from the prior")
 ASSUMPTIONS = ["name='' and name=None both mean 'no name' (create_rating maps one to the other)",
                "'exactly the given values': == on the stored attribute, and identical IEEE bits when a float was given"]
@@ -69,12 +69,31 @@ def eval_construct(kind, mcfgname, mu, sigma, name, how):
 
 
 def eval_ids(kind):
+    import random
+
     model = spaces.model_class(kind)()
     ids = set()
     for i in range(5000):
         ids.add(model.rating().id)
         ids.add(model.create_rating([25.0, 8.0]).id)
-    return [] if len(ids) == 10000 else [f"{kind}: {10000 - len(ids)} duplicate ids among 10^4 fresh ratings"]
+    msgs = [] if len(ids) == 10000 else [f"{kind}: {10000 - len(ids)} duplicate ids among 10^4 fresh ratings"]
+    # uniqueness must not hinge on the state of the application's global random generator (re-seeded per season / per test)
+    state = random.getstate()
+    try:
+        batch = []
+        for rep in range(3):
+            random.seed(12345)
+            batch += [model.rating().id for _ in range(50)] + [model.create_rating([1.0, 2.0], "x").id for _ in range(50)]
+        st = random.getstate()
+        a = [model.rating().id for _ in range(20)]
+        random.setstate(st)
+        b_ = [model.rating().id for _ in range(20)]
+        allids = batch + a + b_
+        if len(set(allids)) != len(allids):
+            msgs.append(f"{kind}: {len(allids) - len(set(allids))} duplicate ids among {len(allids)} fresh ratings when the application re-seeds / restores the global random generator between constructions")
+    finally:
+        random.setstate(state)
+    return msgs
 
 
 def eval_copy(kind, mu, sigma, name):
@@ -225,8 +244,9 @@ def main(ctx, t0):
     for v in a2.violations:
         c = v["case"]
         key = tuple(c["search"])
-        involved = c["op"] in restore_ops[key] or any(h in restore_ops[key] for h in c["hist"])
-        if c["inv"] == "I5" or (c["inv"] in ("I2", "R7") and involved):
+        # I2 is the statement's last sentence verbatim: the differential leg re-builds every player from its (mu, sigma) on a fresh
+        # model, so EVERY transition compares "rebuilt objects" with "the original objects" - not only those after a restore op
+        if c["inv"] in ("I5", "I2", "R7"):
             v["property"] = PID
             v["key"] = "E2:" + v["key"]
             c["engine"] = "E2"
